@@ -34,6 +34,8 @@ var (
 	withPlan = flag.Bool("plans", false, "include the executed plan in every record")
 	procs    = flag.Int("procs", 0, "GOMAXPROCS (0 = leave)")
 	indices  = flag.String("indices", "", "comma separated run indices (instead of -from/-to/-stride)")
+	probeOut = flag.String("probe", "", "probe the corpus with the library under test, write the sample table here and exit")
+	catFile  = flag.String("cat", "", "sample table written by -probe (the worker then executes no library code before its first run)")
 	planOnly = flag.Bool("planonly", false, "print the plans of the selected indices without executing them")
 	cpuprof  = flag.String("cpuprofile", "", "write a CPU profile (development)")
 )
@@ -51,16 +53,16 @@ type infoRec struct {
 	NumFocusedQ int            `json:"focused_quick"`
 	NumFocusedT int            `json:"focused_thorough"`
 	GoVersion   string         `json:"go_version"`
+	GroupsQ     [][2]int       `json:"groups_quick"`    // [from,to) run index ranges that share one worker process
+	GroupsT     [][2]int       `json:"groups_thorough"`
 }
 
 type covRec struct {
-	Coverage bool     `json:"coverage"`
-	Exec     []uint32 `json:"exec"`
-	Co       []uint8  `json:"co"`
-	Pre      []uint32 `json:"pre"`
-	Base     []uint8  `json:"base"`
-	WallS    float64  `json:"wall_s"`
-	Runs     int      `json:"runs"`
+	Coverage bool        `json:"coverage"`
+	N        int         `json:"n"`
+	Sites    [][5]uint32 `json:"sites"` // site id, executions in simulation, co-visited, pre-emptions, executed in a baseline (only sites touched)
+	WallS    float64     `json:"wall_s"`
+	Runs     int         `json:"runs"`
 }
 
 func main() {
@@ -79,7 +81,15 @@ func main() {
 			defer pprof.StopCPUProfile()
 		}
 	}
+	harness.ProbeFile = *catFile
 	harness.InitHarness()
+	if *probeOut != "" {
+		if err := harness.Cat.WriteProbe(*probeOut); err != nil {
+			fmt.Fprintln(os.Stderr, "simc19:", err)
+			os.Exit(2)
+		}
+		return
+	}
 
 	var w *bufio.Writer
 	if *outPath != "" {
@@ -110,7 +120,7 @@ func main() {
 		ir := infoRec{Info: true, Sites: len(harness.SiteTab), Entries: len(c.Entries), ByFam: map[string]int{},
 			Samples: len(c.Samples), OKSamples: len(c.OKSamples), Skipped: c.SortedSkipped(),
 			NumFocusedQ: harness.NumFocused(harness.Tiers["quick"]), NumFocusedT: harness.NumFocused(harness.Tiers["thorough"]),
-			GoVersion: runtime.Version()}
+			GoVersion: runtime.Version(), GroupsQ: harness.FocusGroups(harness.Tiers["quick"]), GroupsT: harness.FocusGroups(harness.Tiers["thorough"])}
 		for f, n := range c.ByFam {
 			ir.ByFam[f] = len(n)
 		}
@@ -155,6 +165,12 @@ func main() {
 			os.Exit(2)
 		}
 		p.Violation = nil
+		for _, idx := range p.Prelude {
+			// the runs that preceded this one in its worker process (their effect on the
+			// library's hidden state, if any, is part of what is being replayed)
+			harness.ExecRun(harness.PlanRun(p.Seed, idx, p.Tier))
+			rl.Poll()
+		}
 		rec := harness.ExecRun(&p)
 		attach(rec)
 		emit(rec)
@@ -190,5 +206,11 @@ func main() {
 		runs++
 	}
 	cov := vsimrt.CoverageSnapshot()
-	emit(covRec{Coverage: true, Exec: cov.Exec, Co: cov.Co, Pre: cov.Pre, Base: cov.Base, WallS: time.Since(start).Seconds(), Runs: runs})
+	cr := covRec{Coverage: true, N: len(cov.Exec), WallS: time.Since(start).Seconds(), Runs: runs}
+	for i := range cov.Exec {
+		if cov.Exec[i] != 0 || cov.Base[i] != 0 {
+			cr.Sites = append(cr.Sites, [5]uint32{uint32(i), cov.Exec[i], uint32(cov.Co[i]), cov.Pre[i], uint32(cov.Base[i])})
+		}
+	}
+	emit(cr)
 }
